@@ -151,6 +151,9 @@ func cmdDump(args []string) int {
 			if !a.ok() {
 				mark = "FAIL"
 			}
+			if a.Cover && a.Status != "sat" {
+				mark = "NOTE"
+			}
 			fmt.Printf("  %s %-50s %-8s inst=%d %.2fs %s\n", mark, a.Name, a.Status, a.N, a.Secs, a.Solver)
 			if !a.ok() {
 				fmt.Printf("       %s\n", a.Text)
